@@ -56,6 +56,10 @@ class Tracer:
             'G': [_dig(peek(l, 'g_factor')) for l in ls],
             'accA': [vars(l).get('_a_batch') is not None for l in ls],
             'accG': [vars(l).get('_g_batch') is not None for l in ls],
+            # the batch buffers are private: if a refactor renames them the
+            # observation is dropped instead of raising a false alarm
+            'accKnown': all('_a_batch' in vars(l) and '_g_batch' in vars(l)
+                            for l in ls),
             'inv': [bool(kaisa.second_order_held(l)) for l in ls],
         }
 
@@ -73,6 +77,7 @@ class Tracer:
             'steps': int(pre.steps),
             'chA': any(chA), 'chG': any(chG),
             'accA': any(new['accA']), 'accG': any(new['accG']),
+            'accKnown': bool(new['accKnown']),
             'hasInv': all(new['inv']) and bool(new['inv']),
             'uniform': (uni(chA) and uni(chG) and uni(new['accA'])
                         and uni(new['accG']) and uni(new['inv'])),
